@@ -156,4 +156,33 @@ def neededClause (S : Nat) (epsOk epsBad tolBig : Rat) (extra : List Vec) (other
     else if farkasOK S epsBad others l k then .within else .undecided
   | none => .undecided
 
+/-! ### optimality certificate for the LP inside LPInterpolation
+
+    The LP the code builds (`LpIn`): minimise `gains · c` subject to `row · c ≤ rhs` for every row and `c ≥ 0`.
+    A dual certificate is a vector `y ≥ 0` (one multiplier per row) with `gains_j + Σ_s y_s · row_s[j] ≥ 0` for every column `j`;
+    then every feasible `c` has `gains · c ≥ −Σ_s y_s · rhs_s` (weak duality). -/
+
+/-- column `j` of the constraint matrix, weighted by `y` -/
+def dualCol (rows : List (Vec × Rat)) (y : Vec) (j : Nat) : Rat :=
+  sumL (List.zipWith (fun (r : Vec × Rat) ys => ys * r.1.getD j 0) rows y)
+
+/-- `−Σ_s y_s · rhs_s` -/
+def dualBound (rows : List (Vec × Rat)) (y : Vec) : Rat :=
+  - sumL (List.zipWith (fun (r : Vec × Rat) ys => ys * r.2) rows y)
+
+/-- exact dual feasibility of `y` for the LP `inp` -/
+def lpDualFeasible (inp : LpIn) (y : Vec) : Bool :=
+  y.length == inp.rows.length && nonneg y &&
+  (List.range inp.gains.length).all (fun j => decide (0 ≤ inp.gains.getD j 0 + dualCol inp.rows y j))
+
+/-- exact primal feasibility of the answer `sol = (objective, c)` -/
+def lpPrimalFeasible (inp : LpIn) (sol : Rat × Vec) : Bool :=
+  sol.2.length == inp.gains.length && nonneg sol.2 &&
+  inp.rows.all (fun r => decide (dot r.1 sol.2 ≤ r.2)) && sol.1 == dot sol.2 inp.gains
+
+/-- the answer is feasible and within `eps` of the dual bound: `eps`-optimal by weak duality -/
+def lpCertOK (eps : Rat) (inp : LpIn) (y : Vec) (sol : Rat × Vec) : Bool :=
+  lpPrimalFeasible inp sol && lpDualFeasible inp y && decide (sol.1 ≤ dualBound inp.rows y + eps)
+
 end AITB.C12Check
+
